@@ -277,6 +277,12 @@ pub fn run_table(case: &ApiCase) -> Vec<(String, String, String, R)> {
     // ---------------- generators, GraphML
     call!("complete_graph", Expect::Total, "", R::Val(json!(generators::classic::complete_graph(pick(6) as i32, d).number_of_edges()), vec![]));
     call!("fast_gnp_random_graph", Expect::Total, "", res(generators::random::fast_gnp_random_graph(pick(12) as i32, 0.3, d, Some(case.sel)), |r| (json!(r.number_of_edges()), vec![])));
+    if case.sel % 64 == 0 {
+        // a valid call far above the small sizes: node counts around 2^15, sqrt(2^31) and 2^16
+        const LARGE_N: [i32; 12] = [300, 1000, 4096, 32767, 32768, 46340, 46341, 46342, 65535, 65536, 70000, 100000];
+        let big = LARGE_N[pick(LARGE_N.len())];
+        call!("fast_gnp_random_graph[large_n]", Expect::Total, "", res(generators::random::fast_gnp_random_graph(big, 1e-7, d, Some(case.sel)), |r| (json!(r.number_of_nodes()), vec![])));
+    }
     call!("write_read_graphml", Expect::Total, "", match graphml::write_graphml_string(g) {
         Ok(s) => res(graphml::read_graphml_string(&s, g.specs.clone()), |r| (json!((r.number_of_nodes(), r.number_of_edges())), vec![])),
         Err(_) => R::Err("io".into()),
@@ -356,7 +362,7 @@ impl Prop for C20 {
         "C20"
     }
     fn rule(&self) -> String {
-        "a table of about 100 calls covering every public function of the crate (queries, degrees, density, matrix, convert, subgraph, ensure, Dijkstra x4, centralities x4, cluster x6, partitions, Louvain x2, components x6, generators, GraphML) is executed on every case: all 8 kinds x (exhaustive block: every graph on <= 3 nodes with at most one edge per pair, plus explicit parallel-edge and self-loop shapes) and random graphs with n in 0..=7 (sparse, so isolated / degree-one nodes and disconnected graphs dominate), arguments drawn from the graph's own names by a selector; with absent = true the functions that have an error channel are given a name that is not in the graph. Each call runs under catch_unwind with the Louvain step budget and the watchdog, in the checked profile (overflow checks + debug assertions) and, through a worker process, in the release profile. Oracle: no panic and no hang in either profile; absent name => Err/None; unsupported kind of graph (the WrongMethod clauses of C02, C09, C10, C11, C15, eigenvector on multi-edge graphs) => Err; outcome kinds equal and values equal (floats within 1e-9) between the two profiles. Non-trivial = the graph has a degenerate feature (no node, no edge, an isolated or degree-one node, a self-loop, a parallel edge or >= 2 components); distinct = distinct serialised case.".into()
+        "a table of about 100 calls covering every public function of the crate (queries, degrees, density, matrix, convert, subgraph, ensure, Dijkstra x4, centralities x4, cluster x6, partitions, Louvain x2, components x6, generators, GraphML) is executed on every case: all 8 kinds x (exhaustive block: every graph on <= 3 nodes with at most one edge per pair, plus explicit parallel-edge and self-loop shapes) and random graphs with n in 0..=7 (sparse, so isolated / degree-one nodes and disconnected graphs dominate), arguments drawn from the graph's own names by a selector (one case in 64 additionally calls fast_gnp_random_graph with a node count from {300, ..., 32768, 46341, 46342, 65536, 100000} and p = 1e-7); with absent = true the functions that have an error channel are given a name that is not in the graph. Each call runs under catch_unwind with the Louvain step budget and the watchdog, in the checked profile (overflow checks + debug assertions) and, through a worker process, in the release profile. Oracle: no panic and no hang in either profile; absent name => Err/None; unsupported kind of graph (the WrongMethod clauses of C02, C09, C10, C11, C15, eigenvector on multi-edge graphs) => Err; outcome kinds equal and values equal (floats within 1e-9) between the two profiles. Non-trivial = the graph has a degenerate feature (no node, no edge, an isolated or degree-one node, a self-loop, a parallel edge or >= 2 components); distinct = distinct serialised case.".into()
     }
     fn assumptions(&self) -> Vec<String> {
         vec![
